@@ -303,7 +303,7 @@ class MaskedPiecewiseQuadraticAutoregressiveTransform(AutoregressiveTransform):
         unnormalized_heights = transform_params[..., self.num_bins :]
 
         if hasattr(self.autoregressive_net, "hidden_features"):
-            unnormalized_widths /= np.sqrt(self.autoregressive_net.hidden_features)
+            unnormalized_widths = unnormalized_widths / np.sqrt(self.autoregressive_net.hidden_features)
             # unnormalized_heights /= np.sqrt(self.autoregressive_net.hidden_features)
 
         if self.tails is None:
@@ -381,8 +381,8 @@ class MaskedPiecewiseCubicAutoregressiveTransform(AutoregressiveTransform):
         unnorm_derivatives_right = derivatives[..., 1][..., None]
 
         if hasattr(self.autoregressive_net, "hidden_features"):
-            unnormalized_widths /= np.sqrt(self.autoregressive_net.hidden_features)
-            unnormalized_heights /= np.sqrt(self.autoregressive_net.hidden_features)
+            unnormalized_widths = unnormalized_widths / np.sqrt(self.autoregressive_net.hidden_features)
+            unnormalized_heights = unnormalized_heights / np.sqrt(self.autoregressive_net.hidden_features)
 
         outputs, logabsdet = cubic_spline(
             inputs=inputs,
@@ -462,8 +462,8 @@ class MaskedPiecewiseRationalQuadraticAutoregressiveTransform(AutoregressiveTran
         unnormalized_derivatives = transform_params[..., 2 * self.num_bins :]
 
         if hasattr(self.autoregressive_net, "hidden_features"):
-            unnormalized_widths /= np.sqrt(self.autoregressive_net.hidden_features)
-            unnormalized_heights /= np.sqrt(self.autoregressive_net.hidden_features)
+            unnormalized_widths = unnormalized_widths / np.sqrt(self.autoregressive_net.hidden_features)
+            unnormalized_heights = unnormalized_heights / np.sqrt(self.autoregressive_net.hidden_features)
 
         if self.tails is None:
             spline_fn = rational_quadratic_spline
